@@ -411,12 +411,12 @@ theorem step_x (A : Allocator) (hA : Lawful A) (s : St) (m : Mon) (hI : Inv s m)
       · simp [observe, stepOk, hm, hn, hi, hs, ha, errCount, callOkB, callObs, cleanupDropCall, hmem]
       · apply inv_retire s m hI i hi .dropped (by decide)
         · intro k hk
-          simp only [cleanupDrop, cleanupDropCall]
+          simp only [cleanupDrop, cleanupPoison, cleanupDropCall]
           rw [hlive]
           refine (List.mem_erase_of_ne (fun e => hI.slot_cl_disj k i hk hi ha hs ?_)).mpr (hI.slot_live k hk)
           exact congrArg Block.ptr e
         · intro j hji hj haj hsj
-          simp only [cleanupDrop, cleanupDropCall]
+          simp only [cleanupDrop, cleanupPoison, cleanupDropCall]
           rw [hlive]
           refine (List.mem_erase_of_ne (fun e => hI.cl_disj j i hji hj hi haj ha hsj hs ?_)).mpr (hI.cl_live j hj haj hsj)
           exact congrArg Block.ptr e
